@@ -262,6 +262,8 @@ class FaultAt(object):
   def __call__(self, site, info):
     if site not in self.kinds:
       return
+    if sys.exc_info()[0] is not None:
+      return       # single-fault model: no site inside error-recovery code of another failure
     if self.n == self.k and self.fired is None:
       self.fired = (site, (info[1][0] if info else None))
       self.n += 1
